@@ -100,3 +100,42 @@ func init() {
 		}
 	})
 }
+
+func init() {
+	extraRegs = append(extraRegs, func() {
+		// partitions.setPartitionItems fills *[]T from raw items through reflection
+		// (reflect.New(T).Interface().(PartitionItem).UnmarshalMsg, reflect.Value.Set); the same
+		// effect is produced here type-directed, calling the real UnmarshalMsg of *T.
+		externals["0chain.net/smartcontract/partitions.setPartitionItems"] = func(fr *frame, args []value) value {
+			items, _ := args[0].([]value)
+			vs := args[1].(iface)
+			pt, ok := vs.t.Underlying().(*types.Pointer)
+			if !ok {
+				return fr.i.makeError("invalid return value type, it must be a pointer of slice")
+			}
+			st, ok := pt.Elem().Underlying().(*types.Slice)
+			if !ok {
+				return fr.i.makeError("invalid return value type, it must be a pointer of slice")
+			}
+			et := st.Elem()
+			out := make([]value, 0, len(items))
+			for _, it := range items {
+				var cell value = zero(et)
+				ptr := &cell
+				pi := iface{t: types.NewPointer(et), v: ptr}
+				fn, ok := callMethodLookup(fr, pi, "UnmarshalMsg")
+				if !ok {
+					return fr.i.makeError("invalid value type, the item does not meet PartitionItem interface")
+				}
+				data := it.(structure)[1]
+				res := call(fr.i, fr, fr.callpos, fn, []value{ptr, data}).(tuple)
+				if e := res[1].(iface); e.t != nil {
+					return e
+				}
+				out = append(out, *ptr)
+			}
+			*vs.v.(*value) = out
+			return iface{}
+		}
+	})
+}
